@@ -199,6 +199,18 @@ static void s_report(void) {
             }
         }
     }
+    /* handles (C06 through the scheduler): a task that has been scheduled and is not in the heap has a handle that
+     * says "not in queue"; one that says "in queue" sits on its own element */
+    for (size_t t = 0; t < s_nt; ++t) {
+        struct aws_task *tk = &s_tasks[t].task;
+        if (s_tasks[t].gen > 0 && aws_priority_queue_node_is_in_queue(&tk->priority_queue_node)) {
+            size_t idx = tk->priority_queue_node.current_index;
+            struct aws_task **pp = NULL;
+            if (idx >= len || aws_array_list_get_at_ptr(&s_sched.timed_queue.container, (void **)&pp, idx) || *pp != tk) {
+                ok = false;
+            }
+        }
+    }
     printf("\nW running\n");
     if (!ok) {
         printf("P MONITOR scheduler invalid or heap handle out of place\n");
@@ -226,10 +238,13 @@ int main(void) {
             s_reset();
             s_nt = (size_t)nt;
             for (int i = 0; i < MAXT; ++i) {
+                /* task and scheduler objects are NOT zero before init: stale fields must not matter */
+                memset(&s_tasks[i].task, 0xA5, sizeof(s_tasks[i].task));
                 aws_task_init(&s_tasks[i].task, s_fn, &s_tasks[i], "t");
                 s_tasks[i].id = i;
                 s_tasks[i].gen = 0;
             }
+            memset(&s_sched, 0xA5, sizeof(s_sched));
             HC_CHECK(aws_task_scheduler_init(&s_sched, hc_allocator()) == AWS_OP_SUCCESS);
             s_have = true;
         } else if (!s_have) {
